@@ -324,6 +324,11 @@ def main_check(prop_id, modname, argv):
         # VERIF_THOROUGH_SCALE overrides): conversions are cheap, so depth is bought with cases
         scale = float(os.environ.get('VERIF_THOROUGH_SCALE', getattr(mod, 'THOROUGH_SCALE', 32)))
         plan = [(st, (n if n <= 1 else max(1, int(n * scale))), prm) for st, n, prm in plan]
+    else:
+        # since the point monitor evaluates through hash tables a deck costs a fraction of a second: the quick tier runs
+        # twice the cases its plans name (a module may set QUICK_SCALE; VERIF_QUICK_SCALE overrides)
+        qscale = float(os.environ.get('VERIF_QUICK_SCALE', getattr(mod, 'QUICK_SCALE', 2)))
+        plan = [(st, (n if n <= 1 else max(1, int(n * qscale))), prm) for st, n, prm in plan]
     results = run_streams(modname, plan, seed, args.workers)
     failures = [f for r in results for f in r['failures']]
     # a generated deck with nothing to convert makes the converter's progress bars fail on max([]); such decks are
